@@ -32,7 +32,7 @@ COMPONENTS = {"real": ["bioscrape.inference_setup.InferenceSetup", "bioscrape.pi
                        "bioscrape.inference (BulkData, StochasticTrajectories, likelihoods)", "pandas data frames",
                        "deterministic and SSA simulators"], "stub": []}
 TIERS = {
-    "quick": {"cases": 1600, "block": 40, "case_timeout": 90.0},
+    "quick": {"cases": 4000, "block": 50, "case_timeout": 90.0},
     "thorough": {"cases": 40000, "block": 100, "case_timeout": 120.0},
 }
 
@@ -268,9 +268,21 @@ def run_case(case):
     except Exception as e:
         bad("setup_failed", error=f"{type(e).__name__}: {str(e)[:300]}")
         return {"violations": viols, "stats": stats, "sig": None, "nontrivial": False, "digest": ""}
+    # the aligned data block itself: LL_data[n, t, m] must be trajectory n's value of measured species m at its t-th time
+    try:
+        LL = np.asarray(live.LL_data, dtype=float)
+        want = np.array([[[float(df[sp].to_numpy()[t]) for sp in case["measurements"]] for t in range(len(df))] for df in frames])
+        if LL.shape != want.shape or not np.array_equal(LL, want):
+            bad("data_not_aligned_by_species_and_time", shape=list(LL.shape), expected_shape=list(want.shape),
+                first_values=LL.ravel()[:6].tolist(), expected_first=want.ravel()[:6].tolist())
+        stats["aligned_data_blocks_checked"] = 1
+    except Exception as e:
+        bad("data_block_unreadable", error=f"{type(e).__name__}: {str(e)[:200]}")
     seen = {}
     in_support = 0
     for i, th in enumerate(case["thetas"]):
+        if viols:
+            break
         if stoch:
             R_.py_seed_random(case["eval_seed"])
         try:
